@@ -51,6 +51,9 @@ def check_entity_name(name):
         raise ValueError("String provided for entity name is empty!")
     if not names.check(name):
         raise ValueError("String provided for entity name is invalid!")
+    if isinstance(name, str):
+        # refused by h5py only after the group or dataset has been created
+        check_text_storable(name)
 
 
 def check_entity_id(id_):
